@@ -602,6 +602,9 @@ class Class(metaclass=mixin.MixinMeta):  # pylint: disable=undefined-variable
   def compute_mro(self):
     """Compute the class precedence list (mro) according to C3."""
     bases = abstract_utils.get_mro_bases(self.bases())
+    if len(set(bases)) != len(bases):
+      # Python refuses to create a class that lists a base class twice.
+      raise mro.MROError([list(bases)])
     bases = [[self]] + [list(base.mro) for base in bases] + [list(bases)]
     base2cls = {}
     newbases = []
